@@ -151,6 +151,29 @@ class Prop(PropBase):
                     a, b = flat[i], flat[j]
                     cmp.append([bool(a < b), bool(a <= b), bool(a == b), bool(a != b), bool(a >= b), bool(a > b)])
             out["cmp"] = cmp
+            # a Phase compared with a plain number / Quantity / array, in both operand orders, by operator and by explicit
+            # ufunc call: decided on the exact value of the Phase against the exact value of the double
+            import operator as _op
+            ufs = {"lt": (np.less, _op.lt), "le": (np.less_equal, _op.le), "gt": (np.greater, _op.gt), "ge": (np.greater_equal, _op.ge),
+                   "eq": (np.equal, _op.eq), "ne": (np.not_equal, _op.ne)}
+            bad = []
+            vv = flat.view(np.ndarray)
+            for i in range(min(n, 2) if int(vv["frac"][0].view(np.int64)) % 3 == 0 else 0):
+                pi = flat[i]
+                Pi = F(float(vv["int"][i])) + F(float(vv["frac"][i]))
+                for j in range(min(n, 3)):
+                    xj = float(vv["int"][j]) + float(vv["frac"][j])          # a double near (or equal to) another element
+                    for x in (xj, np.float64(xj), xj * self.u.cycle, np.array(xj)):
+                        for name, (uf, opf) in ufs.items():
+                            want_px = {"lt": Pi < F(xj), "le": Pi <= F(xj), "gt": Pi > F(xj), "ge": Pi >= F(xj), "eq": Pi == F(xj), "ne": Pi != F(xj)}[name]
+                            want_xp = {"lt": F(xj) < Pi, "le": F(xj) <= Pi, "gt": F(xj) > Pi, "ge": F(xj) >= Pi, "eq": Pi == F(xj), "ne": Pi != F(xj)}[name]
+                            for lab, got, want in ((f"np.{uf.__name__}(phase, {type(x).__name__})", uf(pi, x), want_px),
+                                                   (f"np.{uf.__name__}({type(x).__name__}, phase)", uf(x, pi), want_xp),
+                                                   (f"phase {name} {type(x).__name__}", opf(pi, x), want_px),
+                                                   (f"{type(x).__name__} {name} phase", opf(x, pi), want_xp)):
+                                if bool(got) != want:
+                                    bad.append(lab)
+            out["mixed_bad"] = sorted(set(bad))[:6]
 
             def pr(x):
                 xv = np.atleast_1d(x.view(np.ndarray))
@@ -325,6 +348,8 @@ class Prop(PropBase):
         lanes = [arr.ravel()] if ax is None else [lane for lane in np.moveaxis(arr, ax, -1).reshape(-1, arr.shape[ax])]
         def val(pair):
             return F(unhx(pair[0])) + F(unhx(pair[1]))
+        if code.get("mixed_bad"):
+            return "comparison of a Phase with a plain number/Quantity/array decided wrongly: " + ", ".join(code["mixed_bad"])
         if code.get("shapes_ok") is False:
             return f"min/max/ptp/arg*/sort along axis {ax}: result shape differs from NumPy's for the same reduction"
         mins, maxs, ptps = [val(p) for p in code["min"]], [val(p) for p in code["max"]], [val(p) for p in code["ptp"]]
